@@ -104,7 +104,8 @@ prop(
     title="Everything written is read back after close and reopen",
     technique="close-point runtime monitor on an instrumented medium (live + durable-at-flush images), model-checked observations, every history position closed in all three modes",
     rule="directed scenarios (empty-string cells, shared strings, >64 KiB strings, integer boundaries, 3 package types, each of the 26 code pages "
-         "with strings from its repertoire, multi-byte summary strings) and seeded random histories (create/drop table, insert, update, delete, "
+         "with strings from its repertoire, multi-byte summary strings, a 32-column table), directed save intervals holding SEVERAL operations (string change + re-setting the current code page, "
+         "table change + summary change, stream + table + summary) and seeded random histories (create/drop table, insert, update, delete, "
          "streams, 20 summary setters/clearers, code-page changes); a close point after EVERY operation, each history run 3 times with mode(i) = "
          "(i+pass) mod 3; distinct = fingerprint of (operation kinds, schema shapes, value classes, close modes); non-trivial = at least one successful mutation",
     level_text="Every close point compares the full public observation before closing with the observation after reopening the bytes (flush: the "
@@ -124,7 +125,7 @@ prop(
     technique="reference-model runtime monitor after every operation (whole-observation frame condition) + select oracle; bounded-exhaustive operation words and seeded random histories",
     rule="all words up to depth 4 (quick) / 5 (thorough) over a 14-letter alphabet (single/batch/duplicate inserts, value and KEY-column updates to fresh / "
          "colliding / order-changing values, deletes by key / value / all, reopen, drop+recreate) from a base image; random 50-200 operation histories over 1-4 "
-         "tables with composite / string / nullable keys and reopen points; random WHERE programs + projections against the model; distinct = the word resp. "
+         "tables with composite / string / nullable keys and reopen points; directed operation lists (tables named like the format's own streams, sessions that only move reference counts); random WHERE programs + projections against the model; distinct = the word resp. "
          "history fingerprint; non-trivial = at least one successful mutation",
     level_text="After every call the complete public observation (all tables incl. catalog frame, streams, summary) is compared with an in-memory relational "
                "model; a structural rejection by the model against a library Ok is a violation; selects are compared row by row in order, with Rows::len, "
@@ -139,7 +140,7 @@ prop(
     "C05",
     title="Stored tables always keep unique, ordered keys and valid cells",
     technique="state-invariant runtime monitor (unique + ascending keys, reference validity of every cell) after every operation and every reopen; key-affecting operation words enumerated",
-    rule="all words up to depth 5 (quick) / 6 (thorough) over the 7 key-affecting letters; directed null-vs-empty-string and composite-key scenarios; random histories "
+    rule="all words up to depth 5 (quick) / 6 (thorough) over the 7 key-affecting letters; directed null-vs-empty-string, composite-key, 65,534/65,535/65,536-byte cell, repeated key-assignment and lossy-code-page key scenarios; random histories "
          "weighted to key-column updates (55%), near-duplicate batches and delete/insert cycles, with reopen points; distinct = word / history fingerprint; non-trivial = a successful mutation",
     level_text="The invariant is evaluated on every table (catalog tables included) in every observed state, with the harness's own reference validity predicate "
                "(not the library's is_valid_value), and again after reopening.",
@@ -154,7 +155,8 @@ prop(
     title="Saved files are well-formed MSI databases with exact string accounting",
     technique="offline checker over recorded saved images: independent MSI-format decoder + reference-count conservation (refcount == referring cells) + leftover-token search, at every prefix of every history",
     rule="the saved image after every operation (flush-and-snapshot lane) and after every close (into_inner/drop lane) of directed scenarios (slot reuse, last reference "
-         "released, string shared by two tables and the catalog, dropped table with rows, empty strings; thorough: 65,540 references to one string) and random histories; "
+         "released, string shared by two tables and the catalog, dropped table with rows, empty strings; thorough: 65,540 references to one string), the string-pool limit scenarios "
+         "(last addressable entry in use, sessions that only lower reference counts) and random histories; "
          "distinct = history fingerprint; non-trivial = a successful mutation was saved",
     level_text="Every saved image is parsed by harness code written from the format description (only the cfb container crate is shared) and compared cell by cell with "
                "what the API reports; conservation: each pool entry's refcount equals the number of referring cells in all tables, dead entries are empty, no live empty "
@@ -187,7 +189,8 @@ prop(
     title="A created table reopens with the schema it was created with",
     technique="schema round-trip runtime monitor: every attribute getter compared immediately and after flush+reopen, foreign keys read from _Validation; single-attribute sweeps, pairwise combinations, random column lists",
     rule="374 single-attribute sweeps (widths 0..65536, 26 categories x 4 column kinds, enumerations incl. separators/empty/255-256 joined, ranges over boundary integers, "
-         "foreign keys, 8 flag combinations x 3 types, 1/2/31/32 columns, name lengths 1..65), pairwise combinations (1/97 slice quick, 1/3 thorough), random lists of 1-32 columns; "
+         "foreign keys, 8 flag combinations x 3 types, 1/2/31/32 columns, name lengths 1..65), pairwise combinations (1/97 slice quick, 1/3 thorough), random lists of 1-32 columns; multi-table sessions (names of tables, columns, categories and enumeration values drawn from one small pool incl. dotted names) over several "
+         "save/reopen cycles with drops in between; "
          "distinct = (kind, per-column attribute shape); non-trivial = create_table returned Ok and both comparisons ran (Err = refused, admissible)",
     level_text="Every accepted definition is read back through the public getters right after create_table and again from a reopened copy of the flushed bytes.",
     level_note="Err is admissible for C06 (refused rather than altered); that a refusal leaves nothing behind is decided by C04.",
@@ -202,7 +205,8 @@ prop(
     technique="differential runtime monitor vs a hand-written reference validity predicate, at the pure-predicate level (bounded-exhaustive strings / boundary integers) and at the live insert/update gate",
     rule="all strings up to length 5-7 over per-category adversarial alphabets (identifier/property/cabinet, version, language, upper/lower), signed/zero-padded integer "
          "texts around the 16/32-bit limits, a GUID with every position mutated, widths at w-1/w/w+1 with multi-byte characters, integers within +-2 of every boundary and "
-         "declared bound, random Unicode strings; then ~13k inserts + ~10k updates on a live package, arity 0..33; distinct = (category, verdict, length, character-class mask) "
+         "declared bound, random Unicode strings; then ~26k inserts + ~20k updates on a live package, every gate both in the creating session and after save + reopen, single-value ranges, updates assigning the column twice "
+         "(one value invalid, either order), arity 0..33; distinct = (category, verdict, length, character-class mask) "
          "resp. (column shape, value shape); non-trivial = library and reference were both evaluated",
     level_text="Both Category::validate / Column::is_valid_value and the Ok/Err of insert_rows / update_rows are compared with a predicate written from the documentation; "
                "spots the documentation leaves open are marked Unspecified and accept either answer.",
@@ -217,7 +221,7 @@ prop(
     title="Summary information survives saving, in every code page",
     technique="reference-model runtime monitor of the ten summary properties + independent property-set parser over every saved stream (offset alignment, exact section size, typed values)",
     rule="for each of the 26 pages: strings with every (ascii count, multi-byte count) in 0..4 x 0..4 for up to 3 character shapes on all five string properties; all 26 x 26 "
-         "ordered switch pairs A -> B -> UTF-8 -> A; arch/language/uuid/word-count/time set-clear orders; random 5-30 step setter/clearer histories with save points and "
+         "ordered switch pairs A -> B -> UTF-8 -> A; arch/language/uuid/word-count/time set-clear orders; strings crossing the 4/8/16/64 KiB boundaries of the stream (ASCII and double-byte); random 5-30 step setter/clearer histories with save points and "
          "continuation on the reopened package, a quarter of them with unrepresentable strings; distinct = scenario parameters resp. setter-kind sequence; non-trivial = at least one save point was checked",
     level_text="After every setter the getters are compared with the model; at every save point the reopened getters AND an independent parse of the raw summary stream "
                "(header, section size == stream length - offset, 4-byte aligned offsets pointing at typed values, no overlap) are compared with the model.",
@@ -279,7 +283,8 @@ prop(
     "C16",
     title="Opening and reading a package never modifies it",
     technique="counting instrumented medium: write-call counter + byte comparison over read-only sessions closed in all three ways",
-    rule="library-written packages (random histories) and independently encoded databases (all encoder oddities) x random sequences of 1-40 read-only calls (table/column "
+    rule="library-written packages (random histories, and 'featured' ones: orphan data streams of binary tables, foreign keys to missing tables, cleared / empty summary properties, "
+         "differing code pages, unused pool tail, empty and dropped tables) and independently encoded databases (all encoder oddities) x random sequences of 1-40 read-only calls (table/column "
          "inspection, selects, failing selects and joins, summary getters, streams, has_stream, read_stream incl. missing names, has_digital_signature) x the three close modes; "
          "distinct = (origin, close mode, sequence of call kinds); non-trivial = the session opened and ran",
     level_text="The medium's call log is the oracle: writes == 0 and bytes identical to the input, for every session and close mode.",
